@@ -22,6 +22,7 @@ import warnings
 import numpy as np
 
 import npcatalog as C
+import c07_templates  # noqa: F401  (registers the C07-specific templates)
 
 WHATS = ("not-covariant", "unitless-changed", "units-dropped", "class-changed", "dimension-changed",
          "structure-changed", "raises-after-reexpression", "raises-before-reexpression", "operand-not-covariant")
